@@ -5,26 +5,21 @@ CONSTANTS
   Ifaces <- TriIfs
   IfOf <- P2pIf
   Routers <- R3
-  Stubs <- TriStubs
-  Links <- TriLinks
+  Stubs <- NoSet
+  Links <- LineLinks
   S = 2
-  T = 4
-  G = 2
+  T = 6
+  G = 4
   R = 1
   Strict = FALSE
   Phases <- Ph12
   Mtu = 1400
   Dts <- Dt1
-  MaxFails = 0
-  D = 0
+  MaxFails = 1
+  D = 100
   SlowFrom = "r3"
   SlowTo = "r2"
-SPECIFICATION Spec
-VIEW viewE
-INVARIANT TypeOK
-INVARIANT MetricsBounded
-INVARIANT NeverTooGood
-INVARIANT NextHopIsNeighbour
-INVARIANT OwnRouteStays
-PROPERTY Convergence
+INIT Init
+NEXT Next
+INVARIANT Export
 CHECK_DEADLOCK FALSE
